@@ -32,7 +32,11 @@ THEOREMS = [
 RULE = ("circuits on 1-4 qubits with 0-4 placeholders (two-qubit, paired one-qubit halves sharing a basis object or an equal copy, "
         "standalone one-qubit) interleaved with ordinary gates; real gate bases and synthetic bases (empty sequences, markers, resets); "
         "all map choices, omitted map choice (preset / unset), in place or not; malformed stream: bad group sizes, non-placeholder index, "
-        "mismatching bases, count mismatch, out-of-range / wrong number of map ids. non-trivial = at least one placeholder; distinct by payload")
+        "mismatching bases, count mismatch, out-of-range / wrong number of map ids. deterministic families (seed independent, oracle on every case): "
+        "one placeholder gate OBJECT appended at several positions (two-qubit, pairs of halves, standalone) with pairwise different map ids, not in "
+        "place; pairs of halves whose two bases are nearly the same decomposition (same coefficients, sequences differing only by trailing "
+        "operations / in one operation / in one coefficient) next to equal, separately built bases. "
+        "non-trivial = at least one placeholder; distinct by payload")
 ASSUMPTIONS = ["QuantumCircuit.copy/append/data assignment and Instruction.definition are Qiskit's (modelled as list operations)",
                "a single running-offset step (overwrite + inserts / delete) is modelled as one take/++/drop splice"]
 
@@ -58,7 +62,144 @@ def _synthetic_basis(rng, nsides):
     return {"kind": "synthetic", "maps": maps, "coeffs": [str(Fraction(rng.randint(-8, 8), 4)) for _ in range(nmaps)]}
 
 
+def _p2(q, b, obj=None, lab=None):
+    d = {"name": "qpd_2q", "qubits": list(q), "basis": b, "label": lab}
+    if obj is not None:
+        d["obj"] = obj
+    return d
+
+
+def _p1(q, b, half, obj=None, lab=None):
+    d = {"name": "qpd_1q", "qubits": [q], "basis": b, "half": half, "label": lab}
+    if obj is not None:
+        d["obj"] = obj
+    return d
+
+
+def _g(name, *qs, params=None):
+    d = {"name": name, "qubits": list(qs)}
+    if params:
+        d["params"] = list(params)
+    return d
+
+
+def _o(name, *params):
+    return {"name": name, "params": list(params)}
+
+
+def _fixed(nq, instrs, bases, ids, map_ids, mode="valid", cregs=(), inplace=False):
+    return ("decompose", {"nq": nq, "instrs": instrs, "bases": bases, "ids": [list(d) for d in ids], "nmaps": [None] * len(ids),
+                          "inplace": inplace, "cregs": [list(r) for r in cregs], "pick": 12345, "mode": mode, "prewarm": False,
+                          "map_ids": list(map_ids), "always_oracle": True})
+
+
+_SYN2 = {"kind": "synthetic", "coeffs": ["1/2", "1/2", "-1", "3/4"],
+         "maps": [[[], [_o("x")]], [[_o("h"), _o("qpd_measure")], [_o("z")]], [[_o("s")], []], [[_o("sx"), _o("rz", 0.25)], [_o("qpd_measure"), _o("reset")]]]}
+_SYN1 = {"kind": "synthetic", "coeffs": ["1", "-1/2", "1/4"], "maps": [[[]], [[_o("h"), _o("qpd_measure"), _o("h")]], [[_o("y")]]]}
+
+
+def _family_shared_object():
+    """The same placeholder gate OBJECT sits at several positions of the input; every position has its own decomposition and map id.
+    Each listed position gets the chosen map of ITS decomposition, in place or not."""
+    import random
+    rzz = {"kind": "gate", "gate": "rzz", "params": [0.3]}
+    cx = {"kind": "gate", "gate": "cx", "params": []}
+    # one two-qubit placeholder object used twice; decompositions listed in both orders
+    two = [_g("h", 0), _p2([0, 1], 0, obj=0, lab="cut_rzz"), _g("cx", 1, 2), _p2([2, 1], 0, obj=0, lab="cut_rzz"), _g("s", 0)]
+    yield _fixed(3, two, [rzz], [[1], [3]], [0, 3])
+    yield _fixed(3, two, [rzz], [[3], [1]], [1, 4], cregs=[["c", 2]])
+    yield _fixed(3, two, [rzz], [[1], [3]], [5, 2])
+    # the same requests in place (D11: the map id used to be written into the shared object, so every position got the last-listed map)
+    yield _fixed(3, two, [rzz], [[1], [3]], [0, 3], inplace=True)
+    yield _fixed(3, two, [rzz], [[3], [1]], [1, 4], cregs=[["c", 2]], inplace=True)
+    # one pair of one-qubit halves used for two cuts, an unrelated two-qubit placeholder in between
+    pair = [_p1(0, 0, 0, obj=1, lab="cut_0"), _g("rz", 1, params=[0.25]), _p1(1, 0, 1, obj=2, lab="cut_0"), _p2([1, 2], 1),
+            _p1(1, 0, 0, obj=1, lab="cut_0"), _p1(2, 0, 1, obj=2, lab="cut_0")]
+    yield _fixed(3, pair, [cx, rzz], [[0, 2], [3], [4, 5]], [1, 2, 4])
+    yield _fixed(3, pair, [cx, rzz], [[5, 4], [2, 0], [3]], [0, 5, 3])
+    # only the first half is one object in both pairs, the second halves are distinct objects
+    half = [_p1(0, 0, 0, obj=3), _p1(1, 0, 1), _g("h", 1), _p1(1, 0, 0, obj=3), _g("cz", 0, 1), _p1(0, 0, 1)]
+    yield _fixed(2, half, [cx], [[0, 1], [3, 5]], [2, 3])
+    # three uses of one object with a synthetic basis (empty sequences, markers, resets)
+    three = [_p2([0, 1], 0, obj=4), _g("x", 1), _p2([1, 2], 0, obj=4), _g("barrier", 0, 1, 2), _p2([2, 0], 0, obj=4)]
+    yield _fixed(3, three, [_SYN2], [[0], [2], [4]], [0, 1, 3])
+    yield _fixed(3, three, [_SYN2], [[4], [0], [2]], [2, 3, 1], cregs=[["c", 1]])
+    # a standalone one-qubit placeholder object at three positions
+    alone = [_p1(0, 0, 0, obj=5, lab="foo_1"), _g("t", 0), _p1(1, 0, 0, obj=5, lab="foo_1"), _p1(0, 0, 0, obj=5, lab="foo_1")]
+    yield _fixed(2, alone, [_SYN1], [[0], [2], [3]], [1, 0, 2])
+    yield _fixed(2, alone, [_SYN1], [[3], [2], [0]], [1, 2, 0])
+    yield _fixed(2, alone, [_SYN1], [[0], [2], [3]], [1, 0, 2], inplace=True)
+    yield _fixed(3, pair, [cx, rzz], [[0, 2], [3], [4, 5]], [1, 2, 4], inplace=True)
+    yield _fixed(3, three, [_SYN2], [[4], [0], [2]], [2, 3, 1], inplace=True)
+    # a fixed pseudo-random continuation of the same family (own generator: independent of VERIF_SEED)
+    rng = random.Random(140914)
+    for _ in range(8):
+        nq = rng.randint(2, 4)
+        bases = [rng.choice([rzz, cx, _SYN2, {"kind": "gate", "gate": "crx", "params": [1.1]}, {"kind": "gate", "gate": "swap", "params": []}])]
+        k = rng.randint(2, 3)
+        as_pair = rng.random() < 0.4
+        body = []
+        for u in range(k):
+            if as_pair:
+                body.append([_p1(rng.randrange(nq), 0, 0, obj=10), _p1(rng.randrange(nq), 0, 1, obj=11)])
+            else:
+                body.append([_p2(rng.sample(range(nq), 2), 0, obj=10)])
+        for _ in range(rng.randint(1, 4)):
+            body.append([_g(rng.choice(PLAIN2), *rng.sample(range(nq), 2))] if rng.random() < 0.4 else [_g(rng.choice(PLAIN1), rng.randrange(nq))])
+        rng.shuffle(body)
+        instrs = [x for grp in body for x in grp]
+        ids, cur = [], None
+        for i, ins in enumerate(instrs):
+            if ins["name"] == "qpd_2q":
+                ids.append([i])
+            elif ins["name"] == "qpd_1q" and ins["half"] == 0:
+                cur = [i]
+            elif ins["name"] == "qpd_1q":
+                ids.append(cur + [i])
+        rng.shuffle(ids)
+        nm = 4 if bases[0] is _SYN2 else 6
+        yield _fixed(nq, instrs, bases, ids, rng.sample(range(nm), len(ids)), cregs=rng.choice([[], [["c", 2]]]))
+
+
+def _family_near_bases():
+    """A pair of halves [i, j] must share an equivalent basis: the two halves hold bases that are nearly, but not, the same decomposition
+    (to be refused), or equal bases built separately (to be decomposed)."""
+    crz = {"kind": "gate", "gate": "crz", "params": [0.8]}      # = the rzz(-0.4) basis with an rz appended to every sequence of the second qubit
+    rzz = {"kind": "gate", "gate": "rzz", "params": [-0.4]}
+    short = {"kind": "synthetic", "coeffs": ["1/2", "1/2", "-1"],
+             "maps": [[[], [_o("x")]], [[_o("h"), _o("qpd_measure")], [_o("z")]], [[_o("s")], []]]}
+    longer = {"kind": "synthetic", "coeffs": ["1/2", "1/2", "-1"],
+              "maps": [[[], [_o("x")]], [[_o("h"), _o("qpd_measure"), _o("h")], [_o("z")]], [[_o("s")], [_o("qpd_measure")]]]}
+    lead = {"kind": "synthetic", "coeffs": ["1/2", "1/2", "-1"],      # an extra LEADING operation
+            "maps": [[[], [_o("x")]], [[_o("h"), _o("qpd_measure")], [_o("s"), _o("z")]], [[_o("s")], []]]}
+    inner = {"kind": "synthetic", "coeffs": ["1/2", "1/2", "-1"],     # one operation replaced
+             "maps": [[[], [_o("y")]], [[_o("h"), _o("qpd_measure")], [_o("z")]], [[_o("s")], []]]}
+    coeff = {"kind": "synthetic", "coeffs": ["1/2", "1/4", "-1"], "maps": short["maps"]}
+    angle = {"kind": "gate", "gate": "rzz", "params": [-0.4000001]}
+    same = copy.deepcopy(short)
+
+    def circ(b_first, b_second, order, m, nq=2):
+        instrs = [_g("h", 0), _p1(0, 0, 0, lab="cut_0"), _g("rz", 1, params=[0.125]), _p1(1, 1, 1, lab="cut_0"), _g("cx", 0, 1)]
+        return _fixed(nq, instrs, [b_first, b_second], [[1, 3] if order == 0 else [3, 1]], [m], mode="near_basis")
+    for a, b in ((crz, rzz), (rzz, crz), (short, longer), (longer, short)):
+        for order, m in ((0, 0), (1, 2)):
+            yield circ(a, b, order, m)
+    yield circ(short, lead, 0, 1)
+    yield circ(short, inner, 1, 0)
+    yield circ(short, coeff, 0, 2)
+    yield circ(rzz, angle, 0, 3)
+    # equal bases, built separately: a consistent grouping
+    yield circ(short, same, 0, 1)
+    yield circ(crz, dict(crz), 1, 4)
+    # the near-equal pair next to a consistent two-qubit placeholder, and inside a circuit with two pairs
+    instrs = [_p1(2, 0, 0), _p2([0, 1], 2), _g("h", 2), _p1(0, 1, 1), _p1(1, 0, 0), _p1(2, 0, 1)]
+    yield _fixed(3, instrs, [short, longer, rzz], [[1], [0, 3], [4, 5]], [2, 2, 1], mode="near_basis")
+    yield _fixed(3, instrs, [short, longer, rzz], [[4, 5], [3, 0], [1]], [0, 1, 5], mode="near_basis")
+
+
 def cases(rng, tier):
+    yield from _family_shared_object()
+    yield from _family_near_bases()
     N = 250 if tier == "quick" else 5000
     for _ in range(N):
         nq = rng.randint(1, 4)
@@ -158,6 +299,8 @@ def _materialise(payload):
     instrs = [dict(i) for i in payload["instrs"]]
     mode = payload["mode"]
     map_ids = [rng.randrange(len(bases[instrs[d[0]]["basis"]].maps)) for d in ids]
+    if payload.get("map_ids") is not None and mode in ("valid", "near_basis"):
+        map_ids = list(payload["map_ids"])      # the deterministic families name their map ids
     if mode in ("none_preset",):
         for d, m in zip(ids, map_ids):
             for g in d:
@@ -210,6 +353,16 @@ def _materialise(payload):
             instrs[d[1]]["half"] = min(instrs[d[1]]["half"], 1)
     desc = {"nq": payload["nq"], "cregs": payload["cregs"], "instrs": instrs}
     qc = canon.build_circuit(desc, bases)
+    # "obj": k -- the very same placeholder gate object sits at every position carrying that k (a gate built once and appended repeatedly)
+    first = {}
+    for i, ins in enumerate(instrs):
+        k = ins.get("obj")
+        if k is None or not ins["name"].startswith("qpd"):
+            continue
+        if k in first:
+            qc.data[i] = qc.data[i].replace(operation=qc.data[first[k]].operation)
+        else:
+            first[k] = i
     if payload.get("prewarm"):
         # history: the definition of every placeholder was read earlier, while it carried another map id (drawing, transpiling, ...)
         from qiskit_addon_cutting.qpd import BaseQPDGate
@@ -279,7 +432,7 @@ def compare(kind, payload, real, model):
 
 
 def describe(kind, payload):
-    return {"mode": payload["mode"], "prewarm": bool(payload.get("prewarm")), "nq": payload["nq"], "placeholders": sum(1 for i in payload["instrs"] if i["name"].startswith("qpd")),
+    return {"mode": payload["mode"], "shared_gate_object": any(i.get("obj") is not None for i in payload["instrs"]), "prewarm": bool(payload.get("prewarm")), "nq": payload["nq"], "placeholders": sum(1 for i in payload["instrs"] if i["name"].startswith("qpd")),
             "inplace": payload["inplace"]}
 
 
@@ -287,6 +440,12 @@ def nontrivial_key(kind, payload):
     if not any(i["name"].startswith("qpd") for i in payload["instrs"]):
         return None
     return hash(json.dumps(payload, sort_keys=True))
+
+
+def _basis_signature(b):
+    """What a decomposition IS: every operation sequence of every map, and the coefficients."""
+    return (tuple(tuple(tuple((op.name, tuple(canon.canon_param(p) for p in op.params)) for op in side) for side in m) for m in b.maps),
+            tuple(canon.canon_param(c) for c in b.coeffs))
 
 
 def oracle(kind, payload):
@@ -308,6 +467,10 @@ def oracle(kind, payload):
         valid = False
     elif any(bases[instrs[d[0]]["basis"]] != bases[instrs[g]["basis"]] for d in ids for g in d):
         valid = False
+    elif any(_basis_signature(bases[instrs[d[0]]["basis"]]) != _basis_signature(bases[instrs[g]["basis"]]) for d in ids for g in d):
+        # decided here structurally (operation names and parameters of every sequence, coefficients), not by the package's own comparison
+        valid = False
+        mode = mode + ": the members of one decomposition hold bases that differ in an operation sequence or a coefficient"
     elif len(listed) != sum(1 for i in instrs if i["name"].startswith("qpd")):
         valid = False
     elif map_ids is not None and len(map_ids) != len(ids):
